@@ -324,7 +324,7 @@ pub fn run(ctx: &mut Ctx) {
     let thorough = ctx.tier.thorough();
     ctx.rule = "case = (kind, N, n) with every window start s = N-n+1 down to 1 (so every record's k grows step by step); staircase layout realises every admissible (N,K,n,k); every staircase ontology also carries the extra record 4242, whose id is the same and whose leaves differ between the three kinds; evaluations = (record, window) pairs checked; distinct by construction; non-trivial = exact p strictly between 0 and 1".into();
     ctx.assumptions = vec![
-        "p-values compared with rtol 1e-9 against exact big-integer binomial sums (N <= 200) and with rtol 1e-6 against a log-domain reference for the large-population slices; range, monotonicity, counts strict; fold change rtol 1e-12".into(),
+        "p-values compared with rtol 1e-9 against exact big-integer binomial sums (N <= 200) and with rtol 1e-6 against a log-domain reference for the large-population slices; range, monotonicity (in every space in which two windows share N, K, n - the exact ones and the log-domain slices N = 400 ... 3000), counts strict; fold change rtol 1e-12".into(),
         "sample terms are drawn from the background (property statement)".into(),
         "background and sample are passed as exact-size iterators, filtering adapters over a larger collection, Vec and &HpoSet (as sample and as background) in rotation, and `&ontology` as background (the functions accept any IntoIterator)".into(),
         "strict by the statement: 0 <= p <= 1 and p never larger for a larger k (no rounding allowance); tails below the smallest normal f64 are compared on the subnormal grid (the value is P[X >= k], not 0)".into(),
@@ -690,7 +690,8 @@ pub fn run(ctx: &mut Ctx) {
                 let mut starts = vec![last, (last + 1) / 2, n.min(last), 1];
                 starts.sort_unstable_by(|a, b| b.cmp(a));
                 starts.dedup();
-                check_n_n(ctx, ont.as_ref().unwrap(), big_n, kind, big_n, n, &starts, &lref, false);
+                // (the starts descend, so every record's k ascends with N, K, n fixed: the strict claim applies here too)
+                check_n_n(ctx, ont.as_ref().unwrap(), big_n, kind, big_n, n, &starts, &lref, true);
                 ctx.sample(|| json!({"kind": kind.name(), "N": big_n, "n": n, "window_starts": starts}));
             }
             ctx.mark_partial("large-population slices are a listed subset of (n, s) by design");
@@ -738,7 +739,7 @@ pub fn run(ctx: &mut Ctx) {
                 starts.retain(|s| *s >= 1);
                 starts.sort_unstable_by(|a, b| b.cmp(a));
                 starts.dedup();
-                check_n_n(ctx, ont.as_ref().unwrap(), big_n, Kind::Gene, big_n, n, &starts, &lref, false);
+                check_n_n(ctx, ont.as_ref().unwrap(), big_n, Kind::Gene, big_n, n, &starts, &lref, true);
                 ctx.sample(|| json!({"kind": "gene", "N": big_n, "n": n, "window_starts": starts}));
             }
             ctx.mark_partial("large-population slices are a listed subset of (n, s) by design");
